@@ -479,11 +479,58 @@ def _canonical_asserts(cv):
             return env.get(k.id) == 'pair(self.Q, self.Sigma)'
         return False
 
+    helpers = {}        # local one-expression predicates:  def is_state(q): return q in Q
+    module_consts = {}
+    mod_tree = getattr(getattr(cv, 'module', None), 'tree', None)
+    for st0 in (mod_tree.body if mod_tree is not None else []):
+        if isinstance(st0, ast.Assign) and len(st0.targets) == 1 and isinstance(st0.targets[0], ast.Name) and isinstance(st0.value, (ast.Tuple, ast.List, ast.Set)) \
+                and all(isinstance(x, ast.Constant) for x in st0.value.elts):
+            module_consts[st0.targets[0].id] = st0.value
+
+    class _Subst(ast.NodeTransformer):
+        def __init__(self, m):
+            self.m = m
+
+        def visit_Name(self, node):
+            return self.m.get(node.id, node)
+
     def add_atom(t):
+        # a named condition (flag = <expr> ... assert flag / assert not flag) is read through its definition
+        n0 = t.operand if isinstance(t, ast.UnaryOp) and isinstance(t.op, ast.Not) else t
+        if isinstance(n0, ast.Name) and isinstance(env.get(n0.id), str) and any(op in env[n0.id] for op in (' == ', ' != ', ' in ', ' <= ', ' and ', ' or ', 'not ')):
+            try:
+                sub = ast.parse(env[n0.id], mode='eval').body
+            except SyntaxError:
+                sub = None
+            if sub is not None:
+                add_atom(ast.UnaryOp(op=ast.Not(), operand=sub) if n0 is not t else sub)
+                return
+        # module-level constants (a tuple of directions ...) are read through their definition
+        if isinstance(t, ast.Compare) and len(t.ops) == 1 and isinstance(t.ops[0], (ast.In, ast.NotIn)) and isinstance(t.comparators[0], ast.Name) \
+                and t.comparators[0].id not in env and t.comparators[0].id in module_consts:
+            t = ast.Compare(left=t.left, ops=t.ops, comparators=[module_consts[t.comparators[0].id]])
+        # x == 'L' or x == 'R'   ->   x in {'L', 'R'}
+        if isinstance(t, ast.BoolOp) and isinstance(t.op, ast.Or) and len(t.values) >= 2 and all(
+                isinstance(v, ast.Compare) and len(v.ops) == 1 and isinstance(v.ops[0], ast.Eq) and isinstance(v.comparators[0], ast.Constant) and u(v.left) == u(t.values[0].left) for v in t.values):
+            t = ast.Compare(left=t.values[0].left, ops=[ast.In()], comparators=[ast.Set(elts=[v.comparators[0] for v in t.values])])
         # split conjunctions
         if isinstance(t, ast.BoolOp) and isinstance(t.op, ast.And):
             for v in t.values:
                 add_atom(v)
+            return
+        # not (A or B)  ==  not A and not B
+        if isinstance(t, ast.UnaryOp) and isinstance(t.op, ast.Not) and isinstance(t.operand, ast.BoolOp) and isinstance(t.operand.op, ast.Or):
+            for v in t.operand.values:
+                add_atom(v.operand if isinstance(v, ast.UnaryOp) and isinstance(v.op, ast.Not) else ast.UnaryOp(op=ast.Not(), operand=v))
+            return
+        # a local one-expression predicate is read at its call
+        neg = isinstance(t, ast.UnaryOp) and isinstance(t.op, ast.Not)
+        c0 = t.operand if neg else t
+        if isinstance(c0, ast.Call) and isinstance(c0.func, ast.Name) and c0.func.id in helpers and not c0.keywords and len(c0.args) == len(helpers[c0.func.id][0]):
+            ps, body = helpers[c0.func.id]
+            import copy as _copy
+            inl = _Subst(dict(zip(ps, c0.args))).visit(_copy.deepcopy(body))
+            add_atom(ast.UnaryOp(op=ast.Not(), operand=inl) if neg else inl)
             return
         # totality, spelled out:  (q, a) in delta  under loops over Q and Sigma
         if is_total_test(t):
@@ -601,8 +648,39 @@ def _canonical_asserts(cv):
                 txt = '{} {} {} | {}'.format(u(a), 'in' if isinstance(node.ops[0], ast.In) else 'not in', u(b.right), u(b.left))
         atoms.add(txt)
 
+    def literal_rows(it):
+        """the element expressions of a loop over a literal tuple / list (directly, or through a local name bound once)"""
+        if isinstance(it, ast.Name) and it.id in literals:
+            it = literals[it.id]
+        if isinstance(it, (ast.Tuple, ast.List)):
+            return list(it.elts)
+        return None
+    literals = {}
+
     def walk(stmts):
         for st in stmts:
+            if isinstance(st, ast.FunctionDef):
+                body = [x for x in st.body if not (isinstance(x, ast.Expr) and isinstance(x.value, ast.Constant))]
+                if len(body) == 1 and isinstance(body[0], ast.Return) and body[0].value is not None:
+                    helpers[st.name] = ([a.arg for a in st.args.args], body[0].value)
+                continue
+            if isinstance(st, ast.Assign) and len(st.targets) == 1 and isinstance(st.targets[0], ast.Name) and isinstance(st.value, (ast.Tuple, ast.List)) \
+                    and st.value.elts and all(isinstance(x, (ast.Tuple, ast.Name, ast.Attribute)) for x in st.value.elts):
+                literals[st.targets[0].id] = st.value
+            if isinstance(st, ast.For) and literal_rows(st.iter) is not None and not is_map(st.iter):
+                # a loop over a literal tuple of expressions is the sequence of its bodies
+                for row in literal_rows(st.iter):
+                    saved = dict(env)
+                    if isinstance(st.target, ast.Name):
+                        env[st.target.id] = canon_expr(row)
+                    elif isinstance(st.target, (ast.Tuple, ast.List)) and isinstance(row, (ast.Tuple, ast.List)) and len(row.elts) == len(st.target.elts):
+                        for t0, r0 in zip(st.target.elts, row.elts):
+                            if isinstance(t0, ast.Name) and not isinstance(r0, ast.Constant):
+                                env[t0.id] = canon_expr(r0)
+                    walk(st.body)
+                    env.clear()
+                    env.update(saved)
+                continue
             if isinstance(st, ast.Assign) and len(st.targets) == 1:
                 tg, val = st.targets[0], st.value
                 if isinstance(tg, (ast.Tuple, ast.List)) and isinstance(val, (ast.Tuple, ast.List)) and len(tg.elts) == len(val.elts) and not any(canon_expr(v).startswith('val') for v in val.elts):
